@@ -3,6 +3,9 @@
 #include "../common/gen_program.hpp"
 #include "../common/harness.hpp"
 #include "../ref/ref_accept.hpp"
+#include <ostream>
+#include <streambuf>
+
 #include "glue.hpp"
 
 using namespace verif;
@@ -369,6 +372,10 @@ static void json_c03(const J &c, Result &r) {
 static Reg reg_c03({"C03", 500, prop_c03, nullptr, json_c03});
 
 // ---------------------------------------------------------------------------- C08
+struct NullBuf : std::streambuf {
+  int overflow(int c) override { return c; }
+};
+
 static void judge_c08(const glue::Files &files, const std::string &main, Result &r) {
   r.sample = glue::files_json(files, main);
   r.hash = glue::files_hash(files, main);
@@ -377,6 +384,22 @@ static void judge_c08(const glue::Files &files, const std::string &main, Result 
     r.discard = true;
     r.cls("rejected-by-compiler");
     return;
+  }
+  // the tables are judged on the program as a user holds it; listing it (the CLI's 'o' command) is a read-only
+  // operation and must leave both tables as they were - every other case out of four looks at the program
+  // after a listing
+  if ((r.hash & 3) == 0) {
+    size_t li = cr.code.line_info.size(), pb = cr.code.potential_breaks.size();
+    NullBuf nb;
+    std::ostream os(&nb);
+    cr.code.disassemble(os);
+    r.cls("after-disassemble");
+    if (cr.code.line_info.size() != li || cr.code.potential_breaks.size() != pb) {
+      r.fail("bp:listing-changes-tables", "Program::disassemble changed the breakpoint tables: line_info " + std::to_string(li) + " -> " +
+                                              std::to_string(cr.code.line_info.size()) + " entries, potential_breaks " + std::to_string(pb) + " -> " +
+                                              std::to_string(cr.code.potential_breaks.size()));
+      return;
+    }
   }
   const Theo::Program &P = cr.code;
   auto loc = [](const Theo::BreakPoint &b) { return b.file + ":" + std::to_string(b.line); };
